@@ -4,6 +4,19 @@ From Coq Require Import List Arith Bool Lia.
 From GV Require Import Par.Merge Par.Push.
 Import ListNotations.
 
+Lemma chunks_fuel_concat : forall {X} n fuel (l : list X), 0 < n -> length l <= fuel ->
+  concat (chunks_fuel fuel n l) = l.
+Proof.
+  intros X n. induction fuel as [|f IH]; intros l Hn Hl.
+  - destruct l; [reflexivity|cbn in Hl; lia].
+  - cbn [chunks_fuel]. destruct l as [|x t]; [reflexivity|].
+    cbn [concat]. rewrite IH; auto.
+    + apply firstn_skipn.
+    + rewrite skipn_length. cbn [length] in *. lia.
+Qed.
+Lemma chunks_of_concat : forall {X} n (l : list X), 0 < n -> concat (chunks_of n l) = l.
+Proof. intros. unfold chunks_of. apply chunks_fuel_concat; auto. Qed.
+
 Section PushProofs.
   Context {R K : Type}.
   Variable keq : K -> K -> bool.
@@ -103,12 +116,11 @@ Section PushProofs.
     - pose proof (drive_distinct key cs st0) as H. destruct (drive (ODistinct key) st0 cs). cbn in *.
       rewrite app_nil_r. exact H.
     - pose proof (drive_sort cmp cs st0) as [H1 H2]. destruct (drive (OSort cmp) st0 cs) as [s o]. cbn in *.
-      subst o. rewrite H2. cbn. apply concat_keep.
+      subst o. rewrite H2. cbn. apply chunks_of_concat. lia.
     - pose proof (drive_project f cs st0) as H. destruct (drive (OProject f) st0 cs). cbn in *.
       rewrite app_nil_r. exact H.
   Qed.
 
-  (** *** chains of two operators whose first operator streams (never stops, nothing to finalize) *)
   Fixpoint outs1 (k : opk) (s : opst) (cs : list (list R)) : list (list R) :=
     match cs with
     | [] => []
@@ -134,50 +146,18 @@ Section PushProofs.
     specialize (IH s' H). destruct (drive k s' r). cbn [snd] in *. rewrite IH. reflexivity.
   Qed.
 
-  Lemma drive_chain2 : forall k1 k2, streaming k1 = true -> forall cs s1 s2,
-    exists s1', drive_chain keq [k1; k2] [s1; s2] cs =
-                ([s1'; fst (drive k2 s2 (outs1 k1 s1 cs))], snd (drive k2 s2 (outs1 k1 s1 cs))).
-  Proof.
-    intros k1 k2 H. induction cs as [|c r IH]; intros s1 s2.
-    - exists s1. reflexivity.
-    - cbn [drive_chain push_through outs1 hd_st tl].
-      destruct (streaming_push k1 s1 c H) as [s1' [x E]]. rewrite E.
-      destruct x as [|x0 xt]; cbn [keep negb orb app].
-      + destruct (IH s1' s2) as [s1'' E2]. rewrite E2. eexists. reflexivity.
-      + cbn [concat]. rewrite app_nil_r. cbn [Push.drive].
-        destruct (push k2 s2 (x0 :: xt)) as [[s2' o] c'] eqn:E2.
-        destruct c'.
-        * destruct (IH s1' s2') as [s1'' E3]. rewrite E3.
-          destruct (drive k2 s2' (outs1 k1 s1' r)) as [s2'' o2]. cbn [fst snd]. eexists. reflexivity.
-        * cbn [fst snd]. eexists. reflexivity.
-  Qed.
-
-  Theorem chain2_streaming_ok_l : forall (k1 k2 : opk) (cs : list (list R)), streaming k1 = true ->
-    concat (run_chain keq [k1; k2] cs) = spec k2 (spec k1 (concat cs)).
-  Proof.
-    intros k1 k2 cs H. unfold run_chain. cbn [init_chain map].
-    destruct (drive_chain2 k1 k2 H cs st0 st0) as [s1' E]. rewrite E.
-    cbn [finalize_all hd_st tl]. rewrite (streaming_finish k1 s1' H). cbn [push_all app].
-    pose proof (push_equals_pull_l k2 (outs1 k1 st0 cs)) as P. unfold run1 in P.
-    destruct (drive k2 st0 (outs1 k1 st0 cs)) as [s2' o]. cbn [fst snd].
-    cbn [hd_st]. rewrite P. f_equal.
-    rewrite <- (drive_stream k1 cs st0 H).
-    pose proof (push_equals_pull_l k1 cs) as P1. unfold run1 in P1.
-    destruct (drive k1 st0 cs) as [s o1]. cbn [snd]. rewrite (streaming_finish k1 s H), app_nil_r in P1. exact P1.
-  Qed.
-
-  (** a LIMIT 0 behind a filter: the chunk size hint is 0 and the run never ends *)
+  (** before 3d7a126: a LIMIT 0 behind a filter: the chunk size hint is 0 and the run never ends *)
   Theorem pipeline_limit0_diverges_l : forall (p : R -> bool) (r0 : R) (rows : list R),
-    pipeline_run keq [OFilter p; OLimit 0] (r0 :: rows) = PDiverge.
+    pipeline_run_pre keq [OFilter p; OLimit 0] (r0 :: rows) = PDiverge.
   Proof. intros. reflexivity. Qed.
 End PushProofs.
 
-(** the chain defect C17-K5 on a concrete table *)
+(** the chain defect C17-K5 (before b341ff4) on a concrete table *)
 Definition tt_eq (a b : unit) : bool := true.
 Theorem pipeline_chain_refuted_l :
   exists (ks : list (@opk nat unit)) (rows : list nat),
     k_inner_limit_hit ks (length rows) = true /\
-    exists out, pipeline_run tt_eq ks rows = PRows out /\
+    exists out, pipeline_run_pre tt_eq ks rows = PRows out /\
                 concat out <> fold_left (fun rs k => spec tt_eq k rs) ks rows.
 Proof.
   exists [OLimit 5; OFilter (fun _ => true)], (seq 0 10). split; [reflexivity|].
